@@ -206,6 +206,53 @@ def calls_left_rule(prog, run, rid):
            witness=bad or "%d models" % ncase, what="" if bad is None else "an unfulfilled expectation in a scope is not reported at the end of the test (or a fulfilled scenario is): " + bad)
 
 
+def failed_call_rule(prog, run, rid):
+    """fail once: every parameter-checking entry of a checked actual call (the typed with...Parameter family, the output-parameter forms,
+    onObject), folded on a call that HAS ALREADY FAILED, leaves the candidates alone and reports nothing more."""
+    AC_ = "MockCheckedActualCall"
+    entries = sorted((g for g in prog.methods_of(AC_) if g.kind == "method" and (re.match(r"^with\w*Parameter\w*$", g.name) or g.name == "onObject")), key=lambda g: (g.name, g.line))
+    if len(entries) < 15:
+        raise AnalysisBroken("C08.%s: only %d parameter-checking entries of %s found" % (rid, len(entries), AC_))
+    bad, n_ = None, 0
+    for f in entries:
+        run.analysed(f)
+        n_ += 1
+        seq = []
+
+        def rec(name):
+            return lambda *a_: (seq.append(name), 0)[1]
+        # (failTest itself is folded: it is the guard of last resort - a second report only counts when it reaches the reporter)
+        hooks = string_hooks({AC_ + "::hasFailed": lambda *a_: 1, "MockFailureReporter::failTest": rec("report"), AC_ + "::setState": rec("setState"),
+                              AC_ + "::completeCallWhenMatchIsFound": rec("complete"), AC_ + "::discardCurrentlyMatchingExpectations": rec("discard")})
+        for g in prog.functions.values():
+            if g.qn.startswith("MockExpectedCallsList::") and g.kind == "method":
+                hooks[g.qn] = rec(g.name)
+            if g.qn.startswith("MockNamedValue::") and g.kind in ("method", "ctor", "dtor"):
+                hooks.setdefault(g.qn, lambda *a_: 0)
+            if g.kind == "ctor" and (g.cls or "").startswith("Mock") and (g.cls or "").endswith("Failure"):
+                hooks.setdefault(g.qn, lambda *a_: 0)
+        env = {"this": 100}
+        for q in f.params:
+            env[q["name"]] = ("str", "p") if "SimpleString" in q["ct"] or q["ct"].replace("const ", "").strip() == "char *" else 5
+        ev = Evaluator(prog, f, env=env, calls=hooks)
+        ev.pass_object = True
+        ev.heap_mode = True
+        ev.optional_stubs = set(hooks)
+        ev.dyn_type = {100: AC_}                  # (its helpers are virtual: resolved on the checked call itself)
+        ev.inline = {g.qn for g in prog.methods_of(AC_)} - set(hooks)
+        try:
+            ev.run_blocks(f.entry, max_steps=3000)
+        except Unknown as u:
+            raise AnalysisBroken("C08.%s: %s cannot be folded on a failed call: %s" % (rid, f.qn, u))
+        skipped = [t_[0] for t_ in ev.trace if isinstance(t_[0], str) and t_[0].startswith(AC_ + "::") and t_[0] not in hooks and t_[1] is None and not t_[0].startswith(("enter ", "leave "))]
+        if skipped:
+            raise AnalysisBroken("C08.%s: %s: the call of %s was not folded" % (rid, f.qn, skipped[0]))
+        if seq and bad is None:
+            bad = "%s(%s) on a call that has already failed still does %s" % (f.name, ", ".join(q["ct"] for q in f.params), seq[:4])
+    run.ob(rid, "the %d parameter-checking entries of a checked actual call folded on a call that has already failed: no pruning, no state change, no second report" % n_, entries[0].site, bad is None,
+           witness=bad or "%d entries" % n_, what="" if bad is None else "one scenario is failed twice: " + bad)
+
+
 def on_object_rule(prog, run, rid):
     """MockCheckedActualCall::onObject folded over (call already failed, an expectation already matched, candidates left after pruning by
     object): a failed call does nothing; otherwise the candidates are pruned by the object; no candidate and no match -> one unexpected-
@@ -531,6 +578,7 @@ def check(ctx, run):
 
     calls_left_rule(prog, run, "R6")
     on_object_rule(prog, run, "R13")
+    failed_call_rule(prog, run, "R4")
 
     # ---------------- R7 ----------------------------------------------------
     for meth, cmpf in (("hasInputParameter", "equals"), ("hasOutputParameter", "compatibleForCopying")):
